@@ -155,7 +155,7 @@ def blockModel (half : Bool) (kind : Scaler.Kind) (W H : Nat) (px : Array Pix8) 
   | .ok img =>
     let size := s!"{img.w} {blockHeight img.h}"
     let view := img.view
-    let cells := if half then Blocks.halfCells view else Blocks.fullCells view
+    let cells := if half then Blocks.halfCellsGen view else Blocks.fullCells view
     let width := childExtent col ww screenW
     let height := childExtent row wh screenH
     -- `Draw`: the coordinates come from the regenerated loop (round 4), one iteration per stored cell
@@ -726,11 +726,15 @@ def step (s : St) (line : String) : St × String :=
     | some (c :: cs) => (s, s!"{showC8 (Blocks.averageColor c cs)}\t{impl}\t-")
     | _ => (s, bad)
   | [kind, W, H, hexs, bw, bh, col, row, ww, wh] =>
-    if kind = "half" ∨ kind = "full" ∨ kind = "halfp" ∨ kind = "fullp" then
+    if kind = "half" ∨ kind = "full" ∨ kind = "halfp" ∨ kind = "fullp" ∨ kind = "halfg" ∨ kind = "fullg" ∨ kind = "halfq" ∨ kind = "fullq" then
       match natList? [W, H, bw, bh, col, row], ww.toInt?, wh.toInt? with
       | some [W, H, bw, bh, col, row], some ww, some wh =>
         match parsePixels W H hexs with
-        | some px =>
+        | some px0 =>
+          -- round 4: sources of other concrete types, through the hypothesis `Props.C20Pixels.SameAsNRGBA`: an
+          -- `*image.Gray` pixel Y is seen by the scaler and the renderers as the NRGBA pixel (Y, Y, Y, 255); a pixel of an
+          -- `*image.Paletted` with a `color.NRGBA` palette as that NRGBA colour (checked here on the real code)
+          let px := if kind.endsWith "g" then px0.map fun p => ⟨p.r, p.r, p.r, 255⟩ else px0
           let half := kind.startsWith "half"
           let premult := kind.endsWith "p"
           let m := blockModel half (if premult then .rgba else .nrgba) W H px bw bh col row ww wh
